@@ -213,6 +213,7 @@ func runC16(c *Ctx) {
 		name, ctype string
 		body        []byte
 		nilBody     bool
+		streamed    bool // sent without a Content-Length (chunked), as a client that streams the body does
 		// model inputs
 		size                                   int
 		decodes, v1review, hasRequest, empty bool
@@ -240,6 +241,19 @@ func runC16(c *Ctx) {
 		mk("3MiB + 1", "application/json", big(3*1024*1024-len(exact)+1), true, true, false),
 		mk("4MiB", "application/json", big(4*1024*1024), true, true, false),
 	}
+	// an otherwise perfectly good review, padded with trailing white space to the limit and beyond: only its size is wrong.
+	// Sent once with a Content-Length and once streamed (chunked, length unknown to the server when the handler starts).
+	padded := func(n int) []byte { return append(append([]byte{}, good...), bytes.Repeat([]byte(" "), n-len(good))...) }
+	for _, sz := range []struct {
+		name string
+		n    int
+	}{{"3MiB", 3 * 1024 * 1024}, {"3MiB + 1", 3*1024*1024 + 1}, {"3MiB + 64KiB", 3*1024*1024 + 65536}} {
+		m := mk("good review padded to "+sz.name, "application/json", padded(sz.n), true, true, true)
+		malformed = append(malformed, m)
+		m.name += " (streamed)"
+		m.streamed = true
+		malformed = append(malformed, m)
+	}
 	var ops []J
 	for _, m := range malformed {
 		ops = append(ops, J{"op": "webhookClassify", "empty": m.empty, "size": m.size, "contentType": m.ctype, "decodes": m.decodes, "v1review": m.v1review, "hasRequest": m.hasRequest})
@@ -248,7 +262,11 @@ func runC16(c *Ctx) {
 	for i, m := range malformed {
 		c.Eval(1)
 		c.Tag("malformed." + m.name)
-		req, _ := http.NewRequest("POST", ts.URL, bytes.NewReader(m.body))
+		var rd io.Reader = bytes.NewReader(m.body)
+		if m.streamed {
+			rd = struct{ io.Reader }{rd} // hides the length: net/http sends it chunked
+		}
+		req, _ := http.NewRequest("POST", ts.URL, rd)
 		if m.ctype != "" {
 			req.Header.Set("Content-Type", m.ctype)
 		}
@@ -271,6 +289,27 @@ func runC16(c *Ctx) {
 		want, _ := outs[i]["status"].(float64)
 		if int(want) != resp.StatusCode {
 			c.Disagree(Finding{Desc: fmt.Sprintf("malformed review (%s): HTTP status %d, model %d", m.name, resp.StatusCode, int(want)), Input: in})
+		}
+	}
+	// just under the limit the same padded review is well-formed and must be answered like the unpadded one
+	for _, streamed := range []bool{false, true} {
+		var rd io.Reader = bytes.NewReader(padded(3*1024*1024 - 1))
+		if streamed {
+			rd = struct{ io.Reader }{rd}
+		}
+		req, _ := http.NewRequest("POST", ts.URL, rd)
+		req.Header.Set("Content-Type", "application/json")
+		resp, err := (&http.Client{}).Do(req)
+		c.Eval(1)
+		ok := false
+		if err == nil {
+			b, _ := io.ReadAll(resp.Body)
+			resp.Body.Close()
+			var rv admissionv1.AdmissionReview
+			ok = resp.StatusCode == 200 && json.Unmarshal(b, &rv) == nil && rv.Response != nil && string(rv.Response.UID) == cases[0][0].uid && rv.Response.Allowed == cases[0][0].wantAllowed
+		}
+		if !ok {
+			c.Violate(Finding{Desc: fmt.Sprintf("well-formed review of 3MiB-1 bytes (streamed=%v) not answered with 200, its own uid and the library's verdict", streamed), Key: "under-limit-rejected", Input: J{"bodyBytes": 3*1024*1024 - 1, "streamed": streamed}})
 		}
 	}
 	// the handler is still alive afterwards
